@@ -3,7 +3,7 @@ use crate::{
     error::{WriterError, WriterResult},
     model::{
         Namespace,
-        field::{as_field_name, as_type_name, not_starting_with_a_digit},
+        field::{as_field_name, as_type_name, identifier_characters_only, not_starting_with_a_digit},
         helpers::{write_check_restrictions_footer, write_check_restrictions_header},
     },
     reader::WriteXml,
@@ -22,7 +22,7 @@ where
             writeln!(writer, "\n// {}\n", operation_name.escape_debug())?;
 
             // input
-            let operation_name = not_starting_with_a_digit(to_pascal_case(operation_name));
+            let operation_name = not_starting_with_a_digit(identifier_characters_only(&to_pascal_case(operation_name)));
             let envelope_name = format!("{operation_name}InputEnvelope");
             let soap_operation = &operation.input;
             write_soap_operation(writer, &envelope_name, soap_operation, &self.target_namespaces)?;
